@@ -118,8 +118,10 @@ def run_one(binary, argv, stdin, files):
             else:
                 open(os.path.join(d, name), 'wb').write(content)
         try:
-            p = subprocess.run([binary] + argv, cwd=d, input=stdin if stdin is not None else b'', stdout=subprocess.PIPE,
-                               stderr=subprocess.PIPE, timeout=60, env={'PATH': os.environ['PATH'], 'RUST_BACKTRACE': '0'})
+            # CPU-time limit instead of a short wall-clock one: a loaded machine must not look like a hang
+            p = subprocess.run(['bash', '-c', 'ulimit -t 30; exec "$@"', 'x', binary] + argv, cwd=d,
+                               input=stdin if stdin is not None else b'', stdout=subprocess.PIPE,
+                               stderr=subprocess.PIPE, timeout=900, env={'PATH': os.environ['PATH'], 'RUST_BACKTRACE': '0'})
             rc, out, err = p.returncode, p.stdout, p.stderr
         except subprocess.TimeoutExpired:
             rc, out, err = -9, b'', b''
@@ -243,11 +245,13 @@ def property_c06(c, b, run):
             before = b[2].get(cl['dest'])
             after = run['files'].get(cl['dest'])
             if before != after:
-                aliased = 'SAME' in (cl['regex'], cl['dfa'])
+                # the mechanism: the Graphviz text the user sent to that very path (and nothing else) is what the file holds
+                aliased = 'SAME' in (cl['regex'], cl['dfa']) and (after or b'').startswith(b'digraph') and (after or b'').rstrip().endswith(b'}')
                 out.append(('C06: exit status 1 but the script destination %s was %s' % (
                     cl['dest'], 'created' if before is None else 'overwritten'), ALIAS_CLASS if aliased else None))
         if cl['shells'] and cl['dest'] == '-' and run['stdout'] and not cl['version']:
-            aliased = 'SAME' in (cl['regex'], cl['dfa']) or '-' in (cl['regex'], cl['dfa'])
+            aliased = ('SAME' in (cl['regex'], cl['dfa']) or '-' in (cl['regex'], cl['dfa'])) and run['stdout'].startswith(b'digraph') \
+                and run['stdout'].rstrip().endswith(b'}')
             out.append(('C06: exit status 1 but %d bytes were written to the script destination (stdout)' % len(run['stdout']),
                         ALIAS_CLASS if aliased else None))
     return out
